@@ -4,6 +4,7 @@ package main
 
 import (
 	"fmt"
+	"go/ast"
 	"go/types"
 	"runtime/debug"
 	"sort"
@@ -173,14 +174,14 @@ func (e *Engine) verifyFunc(key string) (res *FuncResult) {
 			suffix = fmt.Sprintf("@ret%d", k+1)
 		}
 		for i, en := range c.Ensures {
-			t := x.evalSpecBool(en, rsc, rs)
+			t := x.evalEnsuresAt(en, rsc, rs)
 			x.oblige(rs, "ensures", clauseName(en, i)+suffix, t, nil)
 		}
 		if c.HasMod {
 			x.checkFrame(c, sc, entry, rs, suffix)
 		}
 		// reachability of this return (vacuity guard)
-		if k == 0 || len(f.returns) <= 6 {
+		if (k == 0 || len(f.returns) <= 6) && !strings.Contains(" "+c.Opts["unreachable"]+" ", " return"+suffix+" ") {
 			co := vc.oblige("cover", "cover:return"+suffix, rs.guard, "")
 			co.Status = ""
 			co.Cover = true
@@ -369,4 +370,34 @@ func (x *Exec) heapWF(key string, m *Term, a0 *Term) {
 		sel := mk("select", "", SliceS, nil, mk("select", "", srt.Rng, nil, m, r), k)
 		x.vc.assume(Forall([]*Term{r, k}, Implies(Lt(r, a0), sliceOK(sel)), sel))
 	}
+}
+
+// evalEnsuresAt evaluates a postcondition at one return. A white-box clause
+// (ensures_local) of the form A ==> B that names a local which is not live at this
+// return is replaced by the obligation !A (the return must not be one the clause speaks about).
+func (x *Exec) evalEnsuresAt(en Clause, sc *SpecScope, st *State) (res *Term) {
+	if !en.Local {
+		return x.evalSpecBool(en, sc, st)
+	}
+	defer func() {
+		if r := recover(); r != nil {
+			ee, ok := r.(*EngineError)
+			if !ok || !strings.Contains(ee.Msg, "unknown identifier") {
+				panic(r)
+			}
+			e := parseSpec(en)
+			ce, isCall := e.(*ast.CallExpr)
+			if !isCall {
+				panic(r)
+			}
+			if id, ok := ce.Fun.(*ast.Ident); !ok || id.Name != "implies__" {
+				panic(r)
+			}
+			x.dry++
+			lhs := x.evalSpec(ce.Args[0], sc, st)
+			x.dry--
+			res = Not(lhs.Tm)
+		}
+	}()
+	return x.evalSpecBool(en, sc, st)
 }
